@@ -38,6 +38,16 @@ def headerName : Header → String
   | .transferEncoding => "TransferEncoding" | .server => "Server" | .accept => "Accept"
   | .acceptEncoding => "AcceptEncoding"
 
+/-! ### every property — no state outside the objects
+
+The model treats connections, servers, routers, responses and header sets as independent values: two connections
+share nothing, a new server knows nothing of an earlier one. That is faithful only if the source keeps no state
+outside its structs. The translator lists every `thread_local!`, `static mut`, `lazy_static!` and every `static` with
+interior mutability in /repo/src (immutable `static` tables are fine); the list must be empty. (Eight of the eighteen
+seeded changes of round twelve kept such state; all of them were reported through the correspondence as well — this
+obligation names the broken modelling assumption directly.) -/
+theorem no_shared_state : Agrees Extracted.sharedState [] := by decide
+
 /-! ### C04 — window and default payload limit -/
 theorem buffer_size : Agrees Extracted.BUFFER_SIZE P0.B := by decide
 theorem max_payload_size : Agrees Extracted.MAX_PAYLOAD_SIZE MAX_PAYLOAD_SIZE := by decide
